@@ -76,6 +76,14 @@ def run(ctx: Ctx) -> dict:
                                (b.lower(), cc.lower())):
                     for ai in (False, True):
                         ops.append({"op": "iban.from_bban", "cc": cps(c2), "bban": cps(bb), "ai": ai, "vb": False})
+    # the digits of a BBAN are the prescribed ones whatever was computed before - in particular a national
+    # check over another country's fields that, joined, read exactly like this BBAN followed by its country
+    import c06
+    for x, ibx, y, by in c06.joined_collisions(ctx, table, rng, "c02join", limit=6):
+        ops.append({"op": "iban.new", "t": cps(ibx), "vb": True})
+        ops.append({"op": "iban.from_bban", "cc": cps(y), "bban": cps(by), "ai": False, "vb": False})
+        for dd in range(100):
+            ops.append({"op": "iban.new", "t": cps(f"{y}{dd:02d}{by}"), "vb": False})
     import fuzz
     ops = fuzz.extend(ctx, ops, "c02", n_seeds=1200, quick=3000, accept=lambda o: o["op"] == "iban.from_bban")
     events = calls.execute(ctx, ops, "c02")
